@@ -374,7 +374,59 @@ def shard_pairs(arg):
     return acc
 
 
+def check_large(acc, rb, rl, eb, el, fs):
+    """Long annotations (>= 2^16 frames): only the metrics whose cost is linear in the number of frames (ARI, MI /
+    NMI, V-measure); pair counts there exceed 2^31, which is where fixed-width integer arithmetic would wrap."""
+    case = {"kind": "large", "rb": list(rb), "rl": list(rl), "eb": list(eb), "el": list(el), "fs": fs}
+    n = int(Fr(rb[-1]) / Fr(fs))
+    # frame label sequences analytically: boundaries are multiples of fs, so frame k belongs to the segment with
+    # b_i <= k*fs < b_{i+1}
+    def seq(bounds, labels):
+        out = []
+        for (a, b), l in zip(zip(bounds, bounds[1:]), labels):
+            out += [str(l).lower()] * int((Fr(b) - Fr(a)) / Fr(fs))
+        return out
+    yr, ye = seq(rb, rl), seq(eb, el)
+    if len(yr) != n or len(ye) != n:
+        raise core.HarnessError("large-frame state is not on the frame grid")
+    tab = M.contingency(yr, ye)
+    acc.conform += 1
+    ok, val = _lib(acc, segment.ari, rb, rl, eb, el, frame_size=fs)
+    if not ok or not _agree(_num(val), M.ari(tab)):
+        acc.violation("equals-definition:ari", "segment.ari", case, observed=val if not ok else _num(val),
+                      expected=float(M.ari(tab)))
+        return
+    ok, val = _lib(acc, segment.mutual_information, rb, rl, eb, el, frame_size=fs)
+    exp_mi, exp_nmi = M.mutual_info(tab), M.nmi(tab)
+    t = _triple(val) if ok else None
+    if t is None or not _agree(t[0], exp_mi) or (exp_nmi is not M.UNDEF and not _agree(t[2], exp_nmi)):
+        acc.violation("equals-definition:mi", "segment.mutual_information", case, observed=val if not ok else t,
+                      expected=[float(exp_mi), None, None if exp_nmi is M.UNDEF else float(exp_nmi)])
+        return
+    ok, val = _lib(acc, segment.vmeasure, rb, rl, eb, el, frame_size=fs)
+    exp_v = M.vmeasure(tab, 1.0)
+    t = _triple(val) if ok else None
+    if t is None or any(not _agree(o, e) for o, e in zip(t, exp_v) if e is not M.UNDEF):
+        acc.violation("equals-definition:v-f", "segment.vmeasure", case, observed=val if not ok else t,
+                      expected=[None if e is M.UNDEF else float(e) for e in exp_v])
+    acc.outcome(("large", n))
+
+
+def shard_large(arg):
+    acc = core.Acc(PID)
+    for rb, rl, eb, el, fs in arg:
+        acc.states += 1
+        acc.nontrivial += 1
+        acc.counters["in.frames_2^16_or_more"] += 1
+        acc.tick({"kind": "large", "rb": list(rb), "rl": list(rl), "eb": list(eb), "el": list(el), "fs": fs})
+        check_large(acc, rb, rl, eb, el, fs)
+    return acc
+
+
 def replay(case, acc):
+    if case.get("kind") == "large":
+        check_large(acc, case["rb"], case["rl"], case["eb"], case["el"], case["fs"])
+        return
     if case.get("kind") != "pair":
         raise core.HarnessError("unknown case kind %r" % case.get("kind"))
     check_pair(acc, tuple(case["rb"]), tuple(case["rl"]), tuple(case["eb"]), tuple(case["el"]), case["fs"],
@@ -491,6 +543,20 @@ def run(run):
     e = annotations(ncase, 4, cen, cell)
     run.explore("case-colliding names, %d cells" % ncase, mod, "shard_pairs",
                 [(ch, e, [cell], (1.0,), True, True) for ch in core.chunks(r, 48)])
+    # mixed-case names with NO all-capitals label anywhere (a shortcut that folds case only "when needed" hides here)
+    r = annotations(ncase, 4, ("Verse", "verse", "chorus", "Chorus"), cell)
+    e = annotations(ncase, 4, ("Ab", "ab", "cD", "Cd"), cell)
+    run.explore("mixed-case names without an all-capitals label, %d cells" % ncase, mod, "shard_pairs",
+                [(ch, e, [cell], (1.0,), True, True) for ch in core.chunks(r, 48)])
+    # >= 2^16 frames (linear-cost metrics only)
+    fs_l = 2.0 ** -10
+    big = []
+    for cut_r, cut_e in ((50000, 30000), (46400, 46400), (65000, 500), (35000, 35001)):
+        nfr = 70000 if ph % 2 == 0 else 66000
+        big.append(((0.0, cut_r * fs_l, nfr * fs_l), (rn[0], rn[1]), (0.0, cut_e * fs_l, nfr * fs_l), (en[0], en[1]), fs_l))
+    big.append(((0.0, 20000 * fs_l, 40000 * fs_l, 70000 * fs_l), (rn[0], rn[1], rn[0]),
+                (0.0, 47000 * fs_l, 70000 * fs_l), (en[0], en[1]), fs_l))
+    run.explore("long annotations (66-70 thousand frames): ARI, MI/NMI, V-measure", mod, "shard_large", [[b] for b in big])
     # frame-count panel
     shards = []
     for n in ((64, 81, 100) if thorough else (64, 100)):
@@ -504,4 +570,4 @@ def run(run):
         "in.independent_nontrivial", "in.nonsquare_table", "in.case_collision_within_annotation",
         "in.adjacent_equal_labels", "undef.Pairwise Precision", "undef.Pairwise Recall",
         "undef.Normalized Mutual Information", "undef.Adjusted Mutual Information", "undef.Rand Index",
-        "in.partial_last_frame_more_than_half")
+        "in.partial_last_frame_more_than_half", "in.frames_2^16_or_more")
